@@ -203,6 +203,10 @@ scratch_pad * scratch_pad_new(mmd_engine * e, short format) {
 		for (int i = 0; i < e->citation_stack->size; ++i) {
 			f = stack_peek_index(e->citation_stack, i);
 
+			// Nothing has been used through this scratch pad yet (the note may carry
+			// the number an earlier scratch pad of the same engine gave it)
+			f->count = -1;
+
 			store_citation(p, f);
 		}
 
@@ -217,6 +221,10 @@ scratch_pad * scratch_pad_new(mmd_engine * e, short format) {
 		for (int i = 0; i < e->footnote_stack->size; ++i) {
 			f = stack_peek_index(e->footnote_stack, i);
 
+			// Nothing has been used through this scratch pad yet (the note may carry
+			// the number an earlier scratch pad of the same engine gave it)
+			f->count = -1;
+
 			store_footnote(p, f);
 		}
 
@@ -230,6 +238,10 @@ scratch_pad * scratch_pad_new(mmd_engine * e, short format) {
 		for (int i = 0; i < e->glossary_stack->size; ++i) {
 			f = stack_peek_index(e->glossary_stack, i);
 
+			// Nothing has been used through this scratch pad yet (the note may carry
+			// the number an earlier scratch pad of the same engine gave it)
+			f->count = -1;
+
 			store_glossary(p, f);
 		}
 
@@ -241,6 +253,10 @@ scratch_pad * scratch_pad_new(mmd_engine * e, short format) {
 
 		for (int i = 0; i < e->abbreviation_stack->size; ++i) {
 			f = stack_peek_index(e->abbreviation_stack, i);
+
+			// Nothing has been used through this scratch pad yet (the note may carry
+			// the number an earlier scratch pad of the same engine gave it)
+			f->count = -1;
 
 			store_abbreviation(p, f);
 		}
